@@ -52,6 +52,17 @@ theorem swap_network_spec (n : Nat) (offset : Bool) :
   · intro q hq p hp
     exact swap_network_pair_once n offset p q hp hq
 
+/-- The callback is invoked `n(n-1)/2` times. -/
+theorem swap_network_call_count (n : Nat) (offset : Bool) :
+    (swapNetwork n offset).2.length * 2 = n * (n - 1) :=
+  OFV.C15.swapNetwork_call_count n offset
+
+/-- At every callback the smaller mode is on the left qubit (`p < q`): two modes cross exactly once, starting in
+ascending order. -/
+theorem swap_network_calls_ascending (n : Nat) (offset : Bool) :
+    ∀ e ∈ (swapNetwork n offset).2, e.1 < e.2.1 :=
+  fun e he => swapNetwork_call_ascending n offset e he
+
 /-- The network with `offset=True` is the mirror image, in time and in space, of the network with
 `offset=False`: the same pairs of modes meet in reverse order, on the mirrored qubit positions
 `(n-2-a, n-1-a)`.  (This is what makes a "network, then network with offset=True on the reversed
@@ -299,6 +310,20 @@ theorem cubic_generator_is_jw (w0 w1 w2 : GQ) :
     cubicGenerator w0 w1 w2 = Mat.add half (Mat.dagger half) := by
   rw [cubicComp0, cubicComp1, cubicComp2, cubicGenerator_lit]
   unfold e65 e63 e53
+  mat_unfold
+  mat_entries
+
+/-- Quartic gate, general weights: `qubit_generator_matrix` (`w0|1001⟩⟨0110| + w1|1010⟩⟨0101| + w2|1100⟩⟨0011| + h.c.`)
+is the Jordan–Wigner image (through the Spec, four modes) of `w0·G₀ + w1·G₁ + w2·G₂ + h.c.` for the
+`fermion_generator_components` extracted from the live source; the three two-level blocks act on disjoint index
+pairs, so the gate is the product of the three rotations of `quartic` (Model; checked against cirq at 1e-9). -/
+theorem quartic_generator_is_jw (w0 w1 w2 : GQ) :
+    let half := Mat.add (Mat.add (Mat.smul w0 (opMat4 (OFV.Generated.C14.quarticComponents.getD 0 [])))
+      (Mat.smul w1 (opMat4 (OFV.Generated.C14.quarticComponents.getD 1 []))))
+      (Mat.smul w2 (opMat4 (OFV.Generated.C14.quarticComponents.getD 2 [])))
+    quarticGenerator w0 w1 w2 = Mat.add half (Mat.dagger half) := by
+  rw [quarticComp0, quarticComp1, quarticComp2, quarticGenerator_lit]
+  unfold e9_6 e10_5 e12_3
   mat_unfold
   mat_entries
 
